@@ -1224,13 +1224,21 @@ macro_rules! drive_mut_impl {
                     let out = ctx.call(&fin, false, || Ok(v.into_boxed_slice().into_raw()));
                     match out {
                         Outcome::Ok(raw) => Fin::Boxed(raw, model),
+                        Outcome::LibPanic(m) => {
+                            // finalising never allocates: a panic here means the arena or the vector is in a bad state
+                            let class = if ctx.on.c07 { "C07/finalise-panicked" } else if ctx.on.c15 { "C15/finalise-panicked" } else { "C08/finalise-panicked" };
+                            if ctx.on.c07 || ctx.on.c15 || ctx.on.c08 {
+                                ctx.viol(class, format!("into_boxed_slice panicked: {m}"));
+                            }
+                            Fin::Unwound
+                        }
                         _ => Fin::Unwound,
                     }
                 }
             }
         }
 
-        pub fn $fname<'b, E: Elem, B: MutBumpAllocatorTypedScope<'b> + BumpAllocatorCore>(ctx: &mut Ctx, bump: &mut B, min_align: usize) {
+        pub fn $fname<'b, E: Elem, B: MutBumpAllocatorTypedScope<'b> + BumpAllocatorCore + bump_scope::traits::BumpAllocator>(ctx: &mut Ctx, bump: &mut B, min_align: usize) {
             let mut results: Vec<(std::ptr::NonNull<[E]>, Vec<u32>)> = Vec::new();
             'outer: while let Some(first) = ctx.next_op() {
                 let mark0 = positions(&*bump);
@@ -1241,6 +1249,17 @@ macro_rules! drive_mut_impl {
                 }
                 if first.kind == K_HELPER {
                     helper_op::<E, B>(ctx, bump, &first, &mark, alloc_before, min_align, &mut results);
+                    continue;
+                }
+                if first.kind == K_NOISE {
+                    // leave a bigger chunk behind an ended scope, so that later growth finds a cached next chunk
+                    let n = 64 << (first.a[0] % 6);
+                    heap::with(0, |h| h.begin_op(ctx.cur_op as u32 + 1, if first.fail_nth != 0 { Some(first.fail_nth) } else { None }, first.burst));
+                    bump.scoped(|s| {
+                        let _ = s.try_alloc_slice_fill(n, 0xEEu8);
+                    });
+                    heap::with(0, |h| h.end_op());
+                    ctx.stats.probe("arena.cached_later_chunk");
                     continue;
                 }
                 if !ids_budget_ok(2 * 16 + 40) {
